@@ -114,7 +114,7 @@ class BodyParser:
                     # else if ...
                     nd, nxt = self.stmt(nxt + 1, close)
                     els = [nd]
-            return Node("if", cond=cond, then=then, els=els, i0=i), nxt
+            return Node("if", cond=cond, then=then, els=els, i0=i, i1=nxt - 1), nxt
         if t.t in ("break", "continue", "return"):
             e = self._end_of_simple(i, close)
             return Node(t.t, i0=i, text=self.text(i, min(e, close - 1))), e + 1
@@ -491,6 +491,8 @@ class Emitter:
         self.report = report
         self.recv = "parser" if f.parent is not None else "self"
         self.nloop = 0
+        self.nassert = 0
+        self.depth = {"lhs": 0}
 
     def walk(self, stmts, opened, closed):
         """opened: list of live MarkOpened variable names in opening order.
@@ -506,6 +508,8 @@ class Emitter:
                 elif s.method in ("mark", "close"):
                     if s.var not in closed:
                         closed.append(s.var)
+                    # number of open nodes of this function below the mark
+                    self.depth[s.var] = len([v for v in opened if not (s.method == "close" and re.match(r"\s*%s\s*," % re.escape(v), s.args))])
             if s.kind == "call" and s.method == "close":
                 m = re.match(r"\s*(\w+)\s*,", s.args)
                 if m and m.group(1) in opened:
@@ -517,6 +521,13 @@ class Emitter:
                 for a in s.arms:
                     self.walk(a.body, opened, closed)
             elif s.kind == "if":
+                if re.match(r"let\s+Some\s*\(\s*diag\s*\)\s*=\s*(self|parser)\s*\.\s*assertion_", s.cond):
+                    # semantic assertion: the emitted code writes error_since_advance directly
+                    self.nassert += 1
+                    a = "a_%d" % self.nassert
+                    r = self.recv
+                    self.ed.insert(self.ix.st[s.i0].s, "let ghost %s = *%s;\n            " % (a, r))
+                    self.ed.insert(self.ix.st[s.i1].e, "\n            proof { assert(%s.twf()); assert(forall|k: int| #[trigger] %s.mk(k) ==> %s.mk(k)); }" % (r, a, r))
                 self.walk(s.then, opened, closed)
                 if s.els:
                     self.walk(s.els, opened, closed)
@@ -537,7 +548,9 @@ class Emitter:
         inv += ["%s.pos >= p_%d" % (r, k), "(%s.pos == p_%d ==> %s.current == c_%d)" % (r, k, r, k)]
         for v in closed:
             if uses_after(ix, self.f, s.i_kw, v):
-                inv.append("%s.mk(%s.0 as int) && top_of(%s.rstack()) < %s.0 && %s <= %s.0" % (r, v, r, v, B, v))
+                drops = max(0, len(opened) - self.depth.get(v, len(opened)))
+                stk = "%s.rstack()" % r + ".drop_last()" * drops
+                inv.append("%s.mk(%s.0 as int) && top_of(%s) < %s.0 && %s <= %s.0" % (r, v, stk, v, B, v))
         ent = self.interp.loop_entry.get(id(s))
         if ent is not None and not ent[1] and len(ent[0]) < len(self.alphabet):
             # without progress since the function was entered, the loop is reached only on these tokens
